@@ -638,3 +638,159 @@ Proof.
   destruct (cs_update_ideal cfg st round tx r) eqn:E; cbn [cs_post]; try exact Hs.
   eapply cs_update_ideal_canon; eauto.
 Qed.
+
+(* ---------- reachable transactions under the strict IsHash ---------- *)
+(* amounts are uint64 values *)
+Definition cs_typed_txn (cfg : cs_cfg) (tx : cs_txn) (r : cs_sc_result) : Prop :=
+  Forall (fun t => 0 <= tr_amt t) (cs_queued cfg tx r).
+Definition cs_typed_item (cfg : cs_cfg) (it : cs_item) : Prop :=
+  cs_typed_txn cfg (snd (fst it)) (snd it).
+
+(* the destinations the contract handed over were ids IsHash accepts (StateContext.AddTransfer
+   refuses the others; AddSignedTransfer does not look - for signed transfers this is a premise
+   about the calling contract) *)
+Definition cs_accepted (cfg : cs_cfg) (tx : cs_txn) (r : cs_sc_result) : Prop :=
+  match tx_type tx, r with
+  | TSC, SCOk _ trs signed _ _ => Forall (fun t => cs_is_hash cfg (tr_to t) = true) (trs ++ signed)
+  | _, _ => True
+  end.
+
+(* a transaction as it can reach updateState: the sender id is derived from a public key
+   (canonical), amounts are uint64, contract destinations were accepted *)
+Definition cs_reachable_txn (cfg : cs_cfg) (tx : cs_txn) (r : cs_sc_result) : Prop :=
+  cs_canon_id (tx_from tx) /\ cs_typed_txn cfg tx r /\ cs_accepted cfg tx r.
+Definition cs_reachable_item (cfg : cs_cfg) (it : cs_item) : Prop :=
+  cs_reachable_txn cfg (snd (fst it)) (snd it).
+
+Lemma cs_is_hash_strict : forall cfg id,
+    cfg_strict_ids cfg = true -> cs_is_hash cfg id = true -> cs_canon_id id.
+Proof.
+  intros cfg id S H. unfold cs_is_hash in H. rewrite S in H. cbn [negb orb] in H.
+  apply andb_prop in H. destruct H as [H1 H2].
+  apply Z.leb_le in H1. apply Z.ltb_lt in H2. unfold cs_canon_id, cs_upper_base. lia.
+Qed.
+
+Lemma cs_finish_applied_hash : forall cfg sp tx m nodes trs signed evs status out st' status' out' evs',
+    cs_finish cfg sp tx m nodes trs signed evs status out = Applied st' status' out' evs' ->
+    cfg_fee cfg = true -> cs_is_hash cfg (cfg_miner cfg) = true.
+Proof.
+  intros until evs'. intros H F. unfold cs_finish in H. rewrite F in H.
+  destruct (cs_is_hash cfg (cfg_miner cfg)); [reflexivity|discriminate].
+Qed.
+
+Lemma cs_update_ideal_applied_hash : forall cfg st round tx r st' status out evs,
+    cs_update_ideal cfg st round tx r = Applied st' status out evs ->
+    (cfg_fee cfg = true -> cs_is_hash cfg (cfg_miner cfg) = true) /\
+    (tx_type tx = TSend -> cs_is_hash cfg (tx_to tx) = true).
+Proof.
+  intros cfg st round tx r st' status out evs H. unfold cs_update_ideal in H.
+  assert (H' :
+    (if cs_max_supply <? tx_value tx then Rejected ErrSupply
+      else if negb (cs_nonce_ok (st_accts st) tx) then Rejected ErrNonce
+      else if negb (cs_validate_ok cfg tx) then Rejected ErrValidate
+      else match tx_type tx with
+        | TSC => match r with
+            | SCInternal => Rejected ErrInternal
+            | SCChargeable msg => cs_finish cfg (tx_hash tx, round) tx (st_accts st) (st_nodes st) [] [] [EvError msg] 2 (Some msg)
+            | SCOk ws trs signed evs out =>
+                cs_finish cfg (tx_hash tx, round) tx (st_accts st) (cs_apply_writes ws (st_nodes st)) trs signed (map EvScript evs) 1 (Some out)
+            end
+        | TData => cs_finish cfg (tx_hash tx, round) tx (st_accts st) (st_nodes st) [] [] [] 1 None
+        | TSend => match cs_get (tx_from tx) (st_accts st) with
+            | None => Rejected ErrNoSender
+            | Some a => if ac_bal a <? cs_wrap_u64 (tx_fee tx + tx_value tx) then Rejected ErrSendFunds
+                else if negb (cs_is_hash cfg (tx_to tx)) then Rejected ErrBadTo
+                else cs_finish cfg (tx_hash tx, round) tx (st_accts st) (st_nodes st)
+                       [{| tr_from := tx_from tx; tr_to := tx_to tx; tr_amt := tx_value tx |}] [] [] 1 None
+            end
+        | TOther => Rejected ErrType
+        end) = Applied st' status out evs).
+  { destruct (st_accts st); [destruct (st_nodes st); [discriminate|]|]; exact H. }
+  clear H.
+  destruct (cs_max_supply <? tx_value tx); [discriminate|].
+  destruct (negb (cs_nonce_ok (st_accts st) tx)); [discriminate|].
+  destruct (negb (cs_validate_ok cfg tx)); [discriminate|].
+  destruct (tx_type tx) eqn:TY.
+  - destruct (cs_get (tx_from tx) (st_accts st)); [|discriminate].
+    destruct (ac_bal c <? cs_wrap_u64 (tx_fee tx + tx_value tx)); [discriminate|].
+    destruct (cs_is_hash cfg (tx_to tx)) eqn:EH; [|discriminate]. cbn [negb] in H'.
+    split; [eapply cs_finish_applied_hash; eauto|reflexivity].
+  - split; [eapply cs_finish_applied_hash; eauto|discriminate].
+  - destruct r; [| |discriminate]; (split; [eapply cs_finish_applied_hash; eauto|discriminate]).
+  - discriminate.
+Qed.
+
+Lemma cs_transfer_amount_canon : forall sp m t m',
+    cs_canon_accts m -> 0 <= tr_amt t -> (tr_amt t <> 0 -> cs_canon_id (tr_to t)) ->
+    cs_transfer_amount sp m t = ROk m' -> cs_canon_accts m'.
+Proof.
+  intros sp m t m' Cm P Ct H. unfold cs_canon_accts in *. rewrite Forall_forall in *.
+  intros k Hk. destruct (cs_transfer_amount_keys _ _ _ _ _ H Hk) as [Hm|[Hf|Ht]]; [apply Cm; exact Hm| |].
+  - (* the source of a non-zero transfer holds at least the amount: it has a leaf *)
+    apply cs_transfer_amount_ok in H. destruct H as [[Z0 ->]|(NZ & _ & Le & _ & _)]; [apply Cm; exact Hk|].
+    subst k. apply Cm. unfold cs_bal in Le. destruct (cs_get (tr_from t) m) eqn:G; [|lia].
+    eapply cs_get_keys; eauto.
+  - apply cs_transfer_amount_ok in H. destruct H as [[Z0 ->]|(NZ & _)]; [apply Cm; exact Hk|].
+    subst k. apply Ct. exact NZ.
+Qed.
+
+Lemma cs_apply_transfers_canon : forall sp l m ue m' ue',
+    cs_canon_accts m -> Forall (fun t => 0 <= tr_amt t) l ->
+    Forall (fun t => tr_amt t <> 0 -> cs_canon_id (tr_to t)) l ->
+    cs_apply_transfers sp l m ue = ROk (m', ue') -> cs_canon_accts m'.
+Proof.
+  induction l as [|t tl IH]; intros m ue m' ue' Cm P D H; cbn [cs_apply_transfers] in H.
+  - inversion H; subst. exact Cm.
+  - destruct (cs_transfer_assert sp m t) as [m1| |] eqn:E; try discriminate.
+    apply cs_transfer_assert_ok in E. inversion P; subst. inversion D; subst.
+    eapply IH; [|eassumption|eassumption|exact H].
+    eapply cs_transfer_amount_canon; eauto.
+Qed.
+
+Lemma cs_update_ideal_canon_strict : forall cfg st round tx r st' status out evs,
+    cfg_strict_ids cfg = true -> cs_canon_accts (st_accts st) -> cs_reachable_txn cfg tx r ->
+    cs_update_ideal cfg st round tx r = Applied st' status out evs ->
+    cs_canon_accts (st_accts st').
+Proof.
+  intros cfg st round tx r st' status out evs S Cs (Cf & Ty & Ac) H.
+  pose proof (cs_update_ideal_applied_hash _ _ _ _ _ _ _ _ _ H) as (HM & HT).
+  apply cs_update_ideal_applied in H. destruct H as (m2 & ue2 & A & B & _).
+  assert (Dst : Forall (fun t => tr_amt t <> 0 -> cs_canon_id (tr_to t)) (cs_queued cfg tx r)).
+  { assert (Fee : Forall (fun t => tr_amt t <> 0 -> cs_canon_id (tr_to t)) (cs_fee_transfers cfg tx)).
+    { unfold cs_fee_transfers. destruct (cfg_fee cfg) eqn:F; [|constructor].
+      constructor; [|constructor]. intros _. cbn [tr_to]. apply (cs_is_hash_strict cfg); auto. }
+    assert (Acc : forall l, Forall (fun t => cs_is_hash cfg (tr_to t) = true) l ->
+                            Forall (fun t => tr_amt t <> 0 -> cs_canon_id (tr_to t)) l).
+    { intros l Hl. eapply Forall_impl; [|exact Hl]. intros t Ht _. apply (cs_is_hash_strict cfg); auto. }
+    unfold cs_queued, cs_accepted in *. destruct (tx_type tx) eqn:TY.
+    - constructor; [|exact Fee]. intros _. cbn [tr_to]. apply (cs_is_hash_strict cfg); auto.
+    - exact Fee.
+    - destruct r; try exact Fee.
+      apply Forall_app in Ac. destruct Ac as [A1 A2].
+      apply Forall_app. split; [apply Acc; exact A1|]. apply Forall_app. split; [exact Fee|apply Acc; exact A2].
+    - constructor. }
+  pose proof (cs_apply_transfers_canon _ _ _ _ _ _ Cs Ty Dst A) as C2.
+  rewrite B. unfold cs_increment_nonce. cbn [fst].
+  unfold cs_canon_accts in *. rewrite Forall_forall in *. intros k Hk.
+  apply cs_keys_put in Hk. destruct Hk as [->|Hk]; [exact Cf|apply C2; exact Hk].
+Qed.
+
+Lemma cs_update_state_reachable_eq : forall cfg st round tx r,
+    cfg_strict_ids cfg = true -> cs_canon_accts (st_accts st) -> cs_reachable_txn cfg tx r ->
+    cs_update_state cfg st round tx r = cs_update_ideal cfg st round tx r.
+Proof.
+  intros cfg st round tx r S Cs R. unfold cs_update_state.
+  destruct (cs_update_ideal cfg st round tx r) as [st' status out evs| |] eqn:E; try reflexivity.
+  rewrite cs_commit_canon; [rewrite cs_state_eta; reflexivity|exact Cs|].
+  eapply cs_update_ideal_canon_strict; eauto.
+Qed.
+
+Lemma cs_step_reachable_canon : forall cfg st it,
+    cfg_strict_ids cfg = true -> cs_canon_accts (st_accts st) -> cs_reachable_item cfg it ->
+    cs_canon_accts (st_accts (cs_step cfg st it)).
+Proof.
+  intros cfg st [[round tx] r] S Cs R. unfold cs_step, cs_reachable_item in *. cbn [fst snd] in R.
+  rewrite cs_update_state_reachable_eq by assumption.
+  destruct (cs_update_ideal cfg st round tx r) eqn:E; cbn [cs_post]; try exact Cs.
+  eapply cs_update_ideal_canon_strict; eauto.
+Qed.
